@@ -404,6 +404,13 @@ def gen_world(seed, classes=ALL_CLASSES, want_constraints=0.3, node_p=0.25, tag=
             ign = []
         if ign:
             args["elements_to_ignore"] = ign
+    rla = random.Random(H(seed, tag, "length-attr-alone"))
+    if dag and not node_mode and args.get(cons_key) and "length_attr" not in args and rla.random() < 0.3:
+        # a length attribute without a length coverage: a legal call (the attribute also serves path lengths / edge
+        # positions) in which the coverage stays a fraction of the *number* of constraint edges
+        args["length_attr"] = "len"
+        graph = dict(graph)
+        graph["edge_lengths"] = [[u_, v_, rla.choice([1, 2, 3, 5, 9])] for u_, v_, _ in graph["edges"] if rla.random() < 0.9]
     if forced_ignore:
         args["elements_to_ignore"] = forced_ignore
     if g.get("entry_exit"):
@@ -590,6 +597,16 @@ def _greedy_peeling(edges):
     return paths
 
 
+def _lengths_without_length_coverage(w2):
+    """In half of the cases (decided by the constraint itself, no draw): edge lengths and `length_attr` although the
+    coverage is the default count coverage - lengths must then play no part in whether a constraint counts as met."""
+    a, g = w2["args"], w2["graph"]
+    r = random.Random(H(str(a["subpath_constraints"]), "lengths-alone"))
+    if r.random() < 0.5:
+        a["length_attr"] = "len"
+        g["edge_lengths"] = [[u, v, r.choice([2, 3, 5, 9])] for u, v, _ in g["edges"]]
+
+
 def greedy_variant(world, rng):
     """The greedy route of the DAG flow decompositions, reached on purpose: default options (greedy on), nothing ignored,
     more paths allowed than the instance needs (the answer is then padded), and decimal float weights (0.1-steps: flow
@@ -620,6 +637,7 @@ def greedy_variant(world, rng):
             a.pop(k_, None)
         if "k" in a:
             a["k"] = min(len(gp) + rng.choice([1, 2]), 6)
+        _lengths_without_length_coverage(w2)
         return w2
     if "k" in a:
         a["k"] = len(g["routes"]) + rng.choice([1, 1, 2])
@@ -643,6 +661,7 @@ def greedy_variant(world, rng):
             a["k"] = len(g["routes"]) + rng.choice([0, 1, 1, 2]) if "k" in a else a.get("k")
             if a.get("k") is None:
                 a.pop("k", None)
+            _lengths_without_length_coverage(w2)
             return w2
     if rng.random() < 0.7:
         ws = [round(0.1 * rng.randint(1, 30), 1) for _ in g["weights"]]
